@@ -21,6 +21,14 @@
                           empty-element tags, all positions) `parse_fragment` / `parse` on its tokens
                           yields exactly that document
     C02_fragment_spelled  parse_fragment(t) and parse(<w>t</w>) read back as the same content
+    C02_spelled_ns_fragment / C02_spelled_ns_document   TREE LEVEL, documents WITH namespaces: for every
+                          spelling with prefixes and namespace declarations (`NSNode`) that the builder's
+                          rules admit (`WellNsDoc`), `parse_fragment` / `parse` on its tokens yields a tree
+                          that reads back (`decodeNs`) as exactly the abstract document with expanded
+                          names, declarations and attributes that XML-Namespaces scoping gives (`denote`)
+    C02_fragment_spelled_ns   the same relation between parse_fragment(t) and parse(<w>t</w>) with namespaces
+    C02_positions_irrelevant  byte positions and whole-token spans of the tokens do not influence the
+                          tree, the interning tables or the id map a parse returns, nor whether it fails
   Closed examples (token lists of the real tokenizer, replayed on the implementation by the
   `build` suite) accompany each of them.
 -/
@@ -29,6 +37,9 @@ import XotModel.Lemmas.Parse
 import XotModel.Lemmas.ParseWitnessData
 import XotModel.Lemmas.ParseSpellTop
 import XotModel.Lemmas.ParseScope
+import XotModel.Lemmas.ParseNsTop
+import XotModel.Lemmas.ParseNsCheck
+import XotModel.Lemmas.ParseErase
 
 namespace XotModel.Props
 open XotModel XotModel.Witness
@@ -292,5 +303,128 @@ example : SNode.Well.wellList spelledExample ∧ noAdjChars spelledExample = tru
 example : SNode.denote.denoteList spelledExample =
     [.elem ['a'] [(['k'], ['x', '&'])] [.comment ['c'], .text ['t', '\n'], .elem ['b'] [] []]] := by
   rfl
+
+/-! ### C02_spelled_ns: every spelling of every document WITH namespaces parses to that document
+
+`NSNode` (Lemmas/ParseNsDefs.lean) is a spelling with prefixes: every start / end tag has a prefix span
+and a local span, the items of a start tag are ordinary attributes and namespace declarations mixed as
+written (which is which is decided by `NSAttr.declares`, the test `_parse` makes), values and URIs are
+piece lists, all positions arbitrary.  `denote scope` threads the in-scope bindings the XML-Namespaces
+way (own declarations first, nearest wins, default namespace for element names only, `xmlns=""`
+undeclares) and yields `NPNode`s: expanded element name, declarations as written, attributes by
+expanded name with normalised values, content.  `WellNsDoc` is what the builder's rules admit.
+`EnvBaseNs` is what `Xot::new` guarantees about the interning tables and interning keeps. -/
+
+/-- The tables of a fresh `Xot` satisfy the hypothesis. -/
+theorem C02_envBaseNs_fresh : EnvBaseNs Env.fresh :=
+  ⟨⟨[], rfl⟩, ⟨[], rfl⟩, ⟨(['s', 'p', 'a', 'c', 'e'], 1), [], rfl, by decide⟩⟩
+
+/-- `parse_fragment`: the children of the document node, read back through the tables the parse
+    leaves, are exactly the denoted nodes. -/
+theorem C02_spelled_ns_fragment {env : Env} (h : EnvBaseNs env) (len : Nat) (sns : List NSNode)
+    (hw : WellNsDoc sns) :
+    ∃ p, build .fragment len env (NSNode.tokens.tokensList sns) none = .ok p ∧
+      p.tree.value = .document ∧
+      decodeNs p.env p.tree.kids = some (NSNode.denote.denoteList baseScope sns) := by
+  obtain ⟨p, hb, ht, he⟩ := build_fragment_spelled_ns h len sns hw
+  refine ⟨p, hb, by rw [ht]; rfl, ?_⟩
+  rw [ht, he]
+  exact decodeNs_encodeList _ env
+
+/-- `parse`: the same, when the denoted top level has exactly one element and no text. -/
+theorem C02_spelled_ns_document {env : Env} (h : EnvBaseNs env) (len : Nat) (sns : List NSNode)
+    (hw : WellNsDoc sns) (htop : AbstractTopNs (NSNode.denote.denoteList baseScope sns)) :
+    ∃ p, build .document len env (NSNode.tokens.tokensList sns) none = .ok p ∧
+      p.tree.value = .document ∧
+      decodeNs p.env p.tree.kids = some (NSNode.denote.denoteList baseScope sns) := by
+  obtain ⟨p, hb, ht, he⟩ := build_document_spelled_ns h len sns hw (wellFormedTop_of_abstractNs htop)
+  refine ⟨p, hb, by rw [ht]; rfl, ?_⟩
+  rw [ht, he]
+  exact decodeNs_encodeList _ env
+
+/-- C02_fragment with namespaces: `parse_fragment` of a text and `parse` of the same text wrapped in
+    one unprefixed element without attributes `<w>…</w>` denote the same content. -/
+theorem C02_fragment_spelled_ns {env : Env} (h : EnvBaseNs env) (len len' : Nat) (sns : List NSNode)
+    (hw : WellNsDoc sns)
+    (w : StrSpan) (pstart : Nat) (junk openSp : StrSpan) (cw : StrSpan) (cpstart : Nat) (closeSp : StrSpan)
+    (hcw : cw.text = w.text) :
+    ∃ p pw, build .fragment len env (NSNode.tokens.tokensList sns) none = .ok p ∧
+      build .document len' env (NSNode.elem ⟨[], pstart⟩ w junk [] openSp sns ⟨[], cpstart⟩ cw closeSp).tokens none =
+        .ok pw ∧
+      decodeNs p.env p.tree.kids = some (NSNode.denote.denoteList baseScope sns) ∧
+      decodeNs pw.env pw.tree.kids = some [.elem [] w.text [] [] (NSNode.denote.denoteList baseScope sns)] := by
+  obtain ⟨p, hp, _, hdp⟩ := C02_spelled_ns_fragment h len sns hw
+  have hwell : WellNsDoc [NSNode.elem ⟨[], pstart⟩ w junk [] openSp sns ⟨[], cpstart⟩ cw closeSp] := by
+    refine ⟨⟨⟨⟨fun a ha => by simp at ha, List.nodup_nil, List.nodup_nil, fun a ha => by simp [ordinary] at ha⟩,
+      rfl, hcw, rfl, hw.2.1, hw.1⟩, trivial⟩, rfl, ?_⟩
+    have := hw.2.2
+    simpa [NSNode.denote.denoteList, NSNode.denote, NPNode.ids.idsList, NPNode.ids, attrIds, attrsOf, ordinary,
+      declsOf, Scope.push] using this
+  obtain ⟨pw, hpw, _, hdw⟩ := C02_spelled_ns_document h len'
+    [NSNode.elem ⟨[], pstart⟩ w junk [] openSp sns ⟨[], cpstart⟩ cw closeSp] hwell
+    ⟨rfl, fun d hd => by
+      simp only [NSNode.denote.denoteList, NSNode.denote, List.append_nil, List.mem_singleton] at hd
+      subst hd; rfl⟩
+  refine ⟨p, pw, hp, ?_, hdp, ?_⟩
+  · simpa [NSNode.tokens.tokensList] using hpw
+  · rw [hdw]; rfl
+
+/-- An end tag that repeats the start tag's name as written satisfies the end-tag clause of `Well`
+    (`Well` itself is as liberal as `close_element`: any prefix bound to the same URI closes). -/
+theorem C02_endtag_as_written (scope : Scope) (pfx loc cpfx cloc : StrSpan) (h1 : cpfx.text = pfx.text)
+    (h2 : cloc.text = loc.text) : cloc.text = loc.text ∧ scope.lookup cpfx.text = scope.lookup pfx.text :=
+  ⟨h2, by rw [h1]⟩
+
+/-- Non-vacuity.  As a spelling:
+    `<a xmlns="d" xmlns:p="u" p:k="v&amp;"><p:b xmlns:p="w" p:j="1"/><c xmlns="" xml:id=" i "/>t</a>`
+    — a default namespace, a prefixed element, prefixed attributes, `p` shadowed on the nested
+    element, `xmlns=""`, an `xml:id`. -/
+def spelledNsExample : List NSNode :=
+  [.elem ⟨[], 1⟩ ⟨['a'], 1⟩ ⟨[], 0⟩
+    [{ pfx := ⟨[], 3⟩, loc := ⟨xmlnsStr, 3⟩, pieces := [.lit 'd'], vstart := 10, junk := ⟨[], 0⟩ },
+     { pfx := ⟨xmlnsStr, 13⟩, loc := ⟨['p'], 19⟩, pieces := [.lit 'u'], vstart := 22, junk := ⟨[], 0⟩ },
+     { pfx := ⟨['p'], 25⟩, loc := ⟨['k'], 27⟩, pieces := [.lit 'v', .named ['a', 'm', 'p']], vstart := 30,
+       junk := ⟨[], 0⟩ }]
+    ⟨['>'], 37⟩
+    [.empty ⟨['p'], 39⟩ ⟨['b'], 41⟩ ⟨[], 0⟩
+       [{ pfx := ⟨xmlnsStr, 43⟩, loc := ⟨['p'], 49⟩, pieces := [.lit 'w'], vstart := 52, junk := ⟨[], 0⟩ },
+        { pfx := ⟨['p'], 55⟩, loc := ⟨['j'], 57⟩, pieces := [.lit '1'], vstart := 60, junk := ⟨[], 0⟩ }]
+       ⟨['/', '>'], 62⟩,
+     .empty ⟨[], 65⟩ ⟨['c'], 65⟩ ⟨[], 0⟩
+       [{ pfx := ⟨[], 67⟩, loc := ⟨xmlnsStr, 67⟩, pieces := [], vstart := 74, junk := ⟨[], 0⟩ },
+        { pfx := ⟨['x', 'm', 'l'], 77⟩, loc := ⟨['i', 'd'], 81⟩, pieces := [.lit ' ', .lit 'i', .lit ' '],
+          vstart := 85, junk := ⟨[], 0⟩ }]
+       ⟨['/', '>'], 89⟩,
+     .chars [.txt [.lit 't'] 91]]
+    ⟨[], 94⟩ ⟨['a'], 94⟩ ⟨['<', '/', 'a', '>'], 92⟩]
+
+example : WellNsDoc spelledNsExample := wellNsDocB_sound _ (by decide)
+
+example : NSNode.denote.denoteList baseScope spelledNsExample =
+    [.elem ['d'] ['a'] [([], ['d']), (['p'], ['u'])] [((['u'], ['k']), ['v', '&'])]
+      [.elem ['w'] ['b'] [(['p'], ['w'])] [((['w'], ['j']), ['1'])] [],
+       .elem [] ['c'] [([], [])] [((xmlNsUri, ['i', 'd']), ['i'])] [],
+       .text ['t']]] := by
+  rfl
+
+example : AbstractTopNs (NSNode.denote.denoteList baseScope spelledNsExample) := ⟨rfl, fun d hd => by
+  simp only [spelledNsExample, NSNode.denote.denoteList, NSNode.denote, List.append_nil, List.mem_singleton] at hd
+  subst hd; rfl⟩
+
+/-! ### Positions do not matter -/
+
+/-- C02_positions_irrelevant: two token lists that differ only in byte positions and whole-token
+    spans (`Token.erase` forgets exactly those) are both rejected, or both accepted with the same
+    tree, the same interning tables and the same id map (`BuildResult.okPart`); source lengths may
+    differ too.  (Which error, and the spans inside it, may differ.) -/
+theorem C02_positions_irrelevant (mode : Mode) (len len' : Nat) (env : Env) (ts ts' : List Token)
+    (h : ts.map Token.erase = ts'.map Token.erase) :
+    (build mode len env ts none).okPart = (build mode len' env ts' none).okPart :=
+  build_erase mode len len' env ts ts' h
+
+theorem C02_positions_irrelevant_ok (mode : Mode) (len len' : Nat) (env : Env) (ts ts' : List Token)
+    (h : ts.map Token.erase = ts'.map Token.erase) (p : Parsed) (hp : build mode len env ts none = .ok p) :
+    ∃ p', build mode len' env ts' none = .ok p' ∧ p'.tree = p.tree ∧ p'.env = p.env ∧ p'.ids = p.ids :=
+  build_erase_ok mode len len' env ts ts' h p hp
 
 end XotModel.Props
